@@ -193,10 +193,20 @@ func vrBuild(t int) vrCase {
 		}
 		return vrCase{progs[kind], kind != 0, fmt.Sprintf("container kind%d", kind)}
 	}
+	if t == 17 { // function type annotations
+		kind := nd("kind", 0, 3)
+		progs := []string{
+			vrMain("  let f: fn(a: int, b: int) -> int = fn(a: int, b: int) -> int { a * 2 - b };\n  println(f(1, 2));\n"),
+			vrMain("  let f: fn(a: int) -> int = fn(a: int, b: int) -> int { a * 2 - b };\n  println(f(1));\n"),
+			vrMain("  let f: fn(a: int) -> str = fn(a: int) -> int { a };\n  println(f(1));\n"),
+			vrMain("  let f: fn(a: str) -> int = fn(a: int) -> int { a };\n  println(f(\"s\"));\n"),
+		}
+		return vrCase{progs[kind], kind != 0, fmt.Sprintf("fn-type-annotation kind%d", kind)}
+	}
 	return vrCase{vrMain("  println(1);\n"), false, "trivial"}
 }
 
-const vrTemplates = 17
+const vrTemplates = 18
 
 func VerifHarness_Rules() {
 	t := errors.VerifNdIntRange("template", 0, vrTemplates-1)
